@@ -18,6 +18,9 @@ PROP = {'lean_props': ['Comrak.Props.C06'],
                        'emphasis_pinned_not_linear_counterexample',
                        'emphasis_fixed_on_family',
                        'emphasis_quadratic_counterexample',
+                       'dollar_linear',
+                       'math_dollar_linear',
+                       'dlLoop_amortised',
                        'dollar_quadratic',
                        'cdSteps_pieces',
                        'cdScan_fail_cost',
@@ -36,7 +39,9 @@ PROP = {'lean_props': ['Comrak.Props.C06'],
              'implemented (3n), process_emphasis as the code is since /repo commit 9704a60 (termination; 19 n + chars opener-search steps for every '
              'text whose delimiters are * and _ runs - a theorem about the current loop with its 17 openers_bottom slots, tied to the real counter '
              'by K equality; the loop before that commit: quadratic lower bound on the rule-of-three family, kept as a historical counterexample), the '
-             'code-dollar scanner (quadratic lower bound, abstraction = sum of failed scans), HTML output size (per node for all 41 kinds, whole '
+             'dollar scanners as the code is since /repo commits 657287d and b4925f3 (code-dollar: 3n dollar-scan steps, math-dollar with or '
+             'without code-dollar: 5n, for every text - theorems about the current scanners with their no-closer memos, tied to the real counter '
+             'by K equality; the memo-less scanner before those commits: quadratic lower bound, kept as history), HTML output size (per node for all 41 kinds, whole '
              'trees without footnote definitions), the reference budget and the caps; the three cost models are tied to the real step counters by '
              'equality in K; linearity of the block parser and of the whole inline loop is measured by the search stage (deterministic step '
              'counters on input families, always at full volume), not proved',
@@ -53,8 +58,11 @@ PROP = {'lean_props': ['Comrak.Props.C06'],
                   'the ~ length-mismatch exit of insert_emph are not modelled; for ~ ^ | closers (guarded update kept by the code) the bound needs the '
                   'hypothesis emRaiseOk (no odd match among their openers), emphasis_linear_ext; process_emphasis calls with a non-zero stack_bottom '
                   '(from brackets) are outside K',
-                  'cdSteps / dlSteps: equality with the real dollar-scan counter with math_code on and math_dollars off on texts over {$,`,a,\\}; '
-                  'scan_to_closing_dollar (math_dollars) is not modelled (its quadratic family is a known finding measured by S)',
+                  'dollar_linear / math_dollar_linear are proved for the byte-level model dlLoop true (handle_dollars with both scanners and their '
+                  'memos no_code_dollar_closer and no_dollar_closer_before[len], handle_backticks with its positional memo, handle_backslash); that the model counts what the code counts is the K '
+                  'stage: equality with the real dollar-scan counter with math_code on over {$,`,a,\\} and with math_dollars on (with and without '
+                  'math_code) over {$,`,a,\\,space,1}; other bytes that the inline loop treats specially (brackets, <, &, *, _, newlines ...) are '
+                  'outside the modelled sublanguage',
                   'html_size_bound_partial is about the model renderHtml of Html.lean (tied to format_html by the byte-equality K of C10/C02/C18), '
                   'for trees without footnote definitions; heading anchors are bounded by hypothesis'],
  'assumptions': ['growth is judged between the two largest sizes of each family (log-log slope <= 1.25 + 0.10), output against 160 n + 4096 bytes']}
@@ -66,19 +74,26 @@ TEXT = {'text': 'Proof (partial). Lean proves: escape and escape_href write at m
          'are * and _ runs (n runs, chars delimiter characters; at most 20 steps per delimiter byte), while the loop before that commit took at '
          'least m^2/2 steps on 4m delimiter runs of the rule-of-three family (former known finding, now fixed; kept as a counterexample theorem about the old loop); the HTML '
          'formatter model writes at most 6 bytes per byte of document text + 364 bytes per node + the decimal strings (trees without footnote '
-         'definitions, header_ids off or anchors bounded); the memo-less code-dollar scanner takes (p+1) n (n+1)/2 - n steps on n '
-         'unclosed openers (quadratic lower bound, a defect of the pinned tree listed as a known finding); the reference-expansion budget is never '
+         'definitions, header_ids off or anchors bounded); the dollar scanners as the code is since /repo commits 657287d and b4925f3 (a code-dollar scan that '
+         'runs to the end sets a flag; every failed $ / $$ scan - end of input, space before or digit after the closing $ - records where it '
+         'failed, and an opener whose scan would start before that position costs nothing) take at most 3n dollar-scan steps with math_code alone '
+         'and at most 5n with math_dollars (with or without math_code), for every text: the records only move forward and a scan that finds its '
+         'closer is paid by what it consumes (657287d alone left the space / digit rule without a memo: "$\\\\" x k followed by " $" still '
+         'cost about 1.5 k^2 steps - found by the model, confirmed against the real counter, repaired in b4925f3); before those commits the '
+         'memo-less code-dollar scanner took (p+1) n (n+1)/2 - n steps on n unclosed openers '
+         '(former known finding, now fixed; kept as a theorem about the old scanner); the reference-expansion budget is never '
          'exceeded; table autocompletion stops within one row of MAX_AUTOCOMPLETED_CELLS; XML indentation is capped at 40; link-label scans give up '
          'after 1001 steps; URL parenthesis depth is capped at 32. Tie to the code (hook comrak::verif::steps, cfg(comrak_verif)), equality of step '
          'counts: backtick-scan == the positional cost model on all one-paragraph texts over {a,`} up to length 11 (quick) / 14 (thorough) and on '
-         'random texts with runs up to 200; dollar-scan (math_code) == the byte-level model on all texts over {$,`,a,\\} up to length 8 / 9 and '
-         'random ones, and == cdSteps of the pieces when every scan runs to the end; emphasis-opener-search == the delimiter-stack model of the current loop on all '
+         'random texts with runs up to 200; dollar-scan == the byte-level model of the current scanners on all texts over {$,`,a,\\} up to length 8 / 9 with math_code, on all '
+         'texts over {$,`,a,\\,space,1} up to length 6 / 7 with math_dollars (with and without math_code), on random ones and on the families of '
+         'the former findings (the model of the scanners before the repair differs on ~2300 of them); emphasis-opener-search == the delimiter-stack model of the current loop on all '
          'texts over {*,_,a,space} up to length 8 / 9, random ones and the rule-of-three family (the model of the loop before the repair differs on ~1500 of them); the proved bounds are re-checked on every text. Search (always full volume): for every fragment up to length '
          '3/4 over a 30-symbol Markdown alphabet and ~150 curated shapes, families f^n, (f LF)^n, f^n a mirror(f)^n and tree-shaped repetitions '
          'are parsed and rendered (HTML, CommonMark, XML) under default, GFM and all-extensions options in isolated workers; the log-log slope '
          'of the 12 summed step counters between the two largest n must stay <= 1.25 and output <= 160 n + 4096. Four super-linear classes of '
          'the pinned tree are listed as known findings (code-dollar scanner, math-dollar scanner with escaped dollars, recursive e-mail autolink '
-         'pass, emphasis opener search under the rule of three; the last two since repaired in /repo, commits e3c39db and 9704a60, and listed as fixed). Instruction counts: for 20 payload contexts (link destination, title, info string, reference label and definition, autolink, code span, alert title, wikilink, HTML attribute, heading, table cell, footnote label, task item, math, description details) filled with n copies of a fragment, and for the curated nesting shapes, one worker process per input is run under valgrind (cachegrind, no cache simulation) at n = 6000 and 12000 and the log-log slope of the executed instructions above the empty-document run must stay <= 1.40: this sees copying, memmove, hashing and formatting that no step counter sits in (it found the nested footnote-label finding, and it is what reports a quadratic helper under the cleaning functions).',
+         'pass, emphasis opener search under the rule of three; all four since repaired in /repo, commits 657287d + b4925f3, e3c39db and 9704a60, and listed as fixed). Instruction counts: for 20 payload contexts (link destination, title, info string, reference label and definition, autolink, code span, alert title, wikilink, HTML attribute, heading, table cell, footnote label, task item, math, description details) filled with n copies of a fragment, and for the curated nesting shapes, one worker process per input is run under valgrind (cachegrind, no cache simulation) at n = 6000 and 12000 and the log-log slope of the executed instructions above the empty-document run must stay <= 1.40: this sees copying, memmove, hashing and formatting that no step counter sits in (it found the nested footnote-label finding, and it is what reports a quadratic helper under the cleaning functions).',
  'note': 'Trusted: Lean kernel + standard axioms; harness, worker protocol, hook lines, valgrind instruction counts; work outside the hooked loops is covered by instruction counts on the payload-context and nesting families and by wall clock elsewhere.',
  'technique': 'Lean 4 cost models with proved bounds + step-counter correspondence through cfg(comrak_verif) hooks + growth-exponent search on '
               'input families in isolated processes',
